@@ -42,6 +42,47 @@ def real_snap(price, tick, is_buy):
     return log.price
 
 
+def real_snap_seq(calls):
+    """several markets (one per distinct tick size) alive together in one process; the calls are made
+    in order and every accepted price is returned.  State that leaks from one market into another
+    (a shared cache, a class-level table) shows here and not with one fresh market per call."""
+    pool = {}
+    out = []
+    for price, tick, is_buy in calls:
+        if tick not in pool:
+            m = Market(market_id=len(pool), prng=random.Random(0), simulator=_Sim(), name="m%d" % len(pool))
+            m.setup({"tickSize": tick, "marketPrice": 100.0})
+            m._update_time(next_fundamental_price=100.0)
+            pool[tick] = m
+        m = pool[tick]
+        o = Order(agent_id=0, market_id=m.market_id, is_buy=is_buy, kind=LIMIT_ORDER, volume=1, price=price)
+        with warnings.catch_warnings():
+            warnings.simplefilter("ignore")
+            log = m._add_order(o)
+        out.append(log.price)
+    return out
+
+
+def gen_C19_groups(rng, n):
+    """the same raw price and side sent to markets with different tick sizes, and repeated"""
+    for i in range(n):
+        if rng.random() < 0.6:
+            ticks = rng.sample([2.0 ** k for k in range(-4, 3)], rng.choice([2, 3]))
+            price = rng.randint(1, 1 << 12) * 2.0 ** rng.randint(-7, 0)
+            fam = "exact"
+        else:
+            ticks = rng.sample([0.01, 0.1, 0.3, 0.05, 1.0, 7.0, 0.25], rng.choice([2, 3]))
+            price = rng.choice([rng.uniform(0.5, 2000.0), round(rng.uniform(1, 500), 2)])
+            fam = "general"
+        buy = rng.random() < 0.5
+        calls = [(price, t, buy) for t in ticks]
+        if rng.random() < 0.5:
+            calls.append((price, ticks[0], buy))
+        if rng.random() < 0.3:
+            calls.append((price, ticks[-1], not buy))
+        yield fam, calls
+
+
 def gen_C19(rng, n):
     for i in range(n):
         fam = rng.choice(["exact", "exact", "general", "general", "small", "huge", "near"])
@@ -124,6 +165,22 @@ def run_C19(ctx, model_available=True):
                 violations.append(v)
         lines.append("snap %s %s %s" % ("1" if inp["buy"] else "0", fbits(inp["price"]), fbits(inp["tick"])))
         lines.append("snapf %s %s %s" % ("1" if inp["buy"] else "0", fbits(inp["price"]), fbits(inp["tick"])))
+    # several markets alive together: same raw price, different tick sizes (fresh pool per group)
+    n_groups = 150 * (ctx.scale if ctx.tier == "thorough" else 1)
+    dist["pooled_calls"] = 0
+    for fam, calls in gen_C19_groups(ctx.rng("C19", "groups"), n_groups):
+        res = real_snap_seq(calls)
+        for j, ((price, tick, buy), got) in enumerate(zip(calls, res)):
+            inp = {"family": fam, "price": price, "tick": tick, "buy": buy, "prior": [list(c) for c in calls[:j]]}
+            cases.append(inp)
+            gots.append(got)
+            seen.add(digest(inp))
+            dist["pooled_calls"] += 1
+            for v in mon_C19(inp, got):
+                if not any(x["signature"] == v["signature"] for x in violations):
+                    violations.append(v)
+            lines.append("snap %s %s %s" % ("1" if buy else "0", fbits(price), fbits(tick)))
+            lines.append("snapf %s %s %s" % ("1" if buy else "0", fbits(price), fbits(tick)))
     compared = 0
     if model_available:
         out, err, dt = LeanDriver("Pure").run(lines)
@@ -159,7 +216,10 @@ def run_C19(ctx, model_available=True):
 
 def replay_C19(obj):
     inp = obj["input"]
-    got = real_snap(inp["price"], inp["tick"], inp["buy"])
+    if inp.get("prior"):
+        got = real_snap_seq([tuple(c) for c in inp["prior"]] + [(inp["price"], inp["tick"], inp["buy"])])[-1]
+    else:
+        got = real_snap(inp["price"], inp["tick"], inp["buy"])
     return {"violations": [{"signature": v["signature"], "observed": v["observed"]} for v in mon_C19(inp, got)]}
 
 
@@ -268,6 +328,7 @@ def run_C17(ctx, model_available=True):
         k = rng.choice([2, 3, 4])
         sim, mks, im = ap.mk_world(rng, k, index=True, equal_shares=rng.random() < 0.2)
         shares = [c.outstanding_shares for c in mks]
+        shares0 = list(shares)
         script = []
         for j in range(rng.randint(4, 12)):
             r = rng.random()
@@ -279,23 +340,40 @@ def run_C17(ctx, model_available=True):
             elif r < 0.75:
                 sim._update_times_on_markets(sim.markets)
                 script.append(["tick"])
+            elif r < 0.85:
+                # a share issuance / buy-back on a component: "weighted by their outstanding shares"
+                # means the shares outstanding now
+                c = rng.randrange(k)
+                sh = rng.choice([1, 500, 1000, 2500, 100000])
+                mks[c].outstanding_shares = sh
+                shares = [c_.outstanding_shares for c_ in mks]
+                script.append(["shares", c, sh])
+                dist["share_changes"] = dist.get("share_changes", 0) + 1
             else:
                 script.append(["query"])
             mp = [c.get_market_price() for c in mks]
             want = sum(Fraction(p) * sh for p, sh in zip(mp, shares)) / sum(shares)
+            fpn = [c.get_fundamental_price() for c in mks]
+            want_fn = sum(Fraction(p) * sh for p, sh in zip(fpn, shares)) / sum(shares)
             checks += 1
             dist["index_values_checked"] += 1
-            for name, got in (("index", im.get_index()), ("market_index", im.get_market_index()),
-                              ("compute_market_index", im.compute_market_index())):
+            cands = [("index", im.get_index(), want), ("market_index", im.get_market_index(), want),
+                     ("compute_market_index", im.compute_market_index(), want),
+                     ("compute_fundamental_index", im.compute_fundamental_index(), want_fn)]
+            if script[-1][0] == "tick":
+                # what the index *records* when the clock advances (later share changes do not rewrite it)
+                cands.append(("recorded_fundamental", im.get_fundamental_price(), want_fn))
+                cands.append(("fundamental_index", im.get_fundamental_index(), want_fn))
+            for name, got, want in cands:
                 if not math.isclose(got, float(want), rel_tol=1e-12):
                     v = viol("C17", "C17/%s-not-share-weighted-average" % name,
                              "index value / recorded fundamental = share-weighted average of the components' market / fundamental prices at that time",
                              {"got": got, "expected": float(want), "prices": mp, "shares": shares, "after": list(script)},
-                             {"kind": "index-script", "n": k, "shares": shares, "script": list(script)})
+                             {"kind": "index-script", "n": k, "shares": shares0, "script": list(script)})
                     if not any(x["signature"] == v["signature"] for x in violations):
                         violations.append(v)
             lines.append("index %d %s" % (k, " ".join("%s %d" % (fbits(p), sh) for p, sh in zip(mp, shares))))
-            expect.append((im.get_index(), {"prices": mp, "shares": shares, "script": list(script)}))
+            expect.append((im.get_index(), {"prices": mp, "shares": list(shares), "script": list(script)}))
         seen.add(digest(["script", shares, script]))
     compared = 0
     if model_available and lines:
@@ -329,8 +407,21 @@ def replay_C17(obj):
                 ap.trade(mks[st[1]], st[2])
             elif st[0] == "tick":
                 sim._update_times_on_markets(sim.markets)
+            elif st[0] == "shares":
+                mks[st[1]].outstanding_shares = st[2]
+                shares = [c.outstanding_shares for c in mks]
             want = sum(Fraction(c.get_market_price()) * sh for c, sh in zip(mks, shares)) / sum(shares)
-            for name, got in (("index", im.get_index()), ("market_index", im.get_market_index())):
+            wantf = sum(Fraction(c.get_fundamental_price()) * sh for c, sh in zip(mks, shares)) / sum(shares)
+            for name, got in (("index", im.get_index()), ("market_index", im.get_market_index()),
+                              ("compute_market_index", im.compute_market_index())):
+                if not math.isclose(got, float(want), rel_tol=1e-12):
+                    out.append({"signature": "C17/%s-not-share-weighted-average" % name, "observed": {"got": got, "expected": float(want)}})
+            for name, got in ([("compute_fundamental_index", im.compute_fundamental_index())] +
+                              ([("recorded_fundamental", im.get_fundamental_price()),
+                                ("fundamental_index", im.get_fundamental_index())] if st[0] == "tick" else [])):
+                if not math.isclose(got, float(wantf), rel_tol=1e-12):
+                    out.append({"signature": "C17/%s-not-share-weighted-average" % name, "observed": {"got": got, "expected": float(wantf)}})
+            for name, got in ():
                 if not math.isclose(got, float(want), rel_tol=1e-12):
                     out.append({"signature": "C17/%s-not-share-weighted-average" % name, "observed": {"got": got, "expected": float(want)}})
         return {"violations": out[:3]}
